@@ -685,4 +685,175 @@ theorem simple_marks (hok : FragsOk frags) (tag : QName) (attrs : AttrList) (kid
       simp only [List.any_eq_true, h0, Option.some.injEq, exists_eq_left', hgG, List.drop_zero]
 
 end
+
+/-! ## `SimplePathStrategy.__init__` on the path of a fragment list -/
+
+theorem fragLoop_chain_app (ts : List NodeTest) (rest : LocPath) (frs : List Frag) (acc : List NodeTest) (sb : Bool) :
+    fragLoop (childChain ts ++ rest) frs acc sb = fragLoop rest frs (acc ++ ts) sb := by
+  induction ts generalizing acc with
+  | nil => simp [childChain]
+  | cons t ts ih =>
+    simp only [childChain, List.map_cons, List.cons_append, fragLoop]
+    have := ih (acc ++ [t])
+    simp only [childChain] at this
+    rw [this]
+    simp
+
+/-- the fragments after the first: non-empty, tables by `calculate_pi`, no attribute -/
+def TailOk (fs : List Frag) : Prop :=
+  ∀ f ∈ fs, f.tests ≠ [] ∧ f.pi = calculatePi f.tests ∧ f.attr = none
+
+theorem fragLoop_tail : ∀ (fs : List Frag), TailOk fs → ∀ (frs : List Frag) (acc : List NodeTest) (sb : Bool),
+    fragLoop (tailPath fs) frs acc sb = some (frs ++ ⟨acc, calculatePi acc, none, sb⟩ :: fs)
+  | [], _, frs, acc, sb => by simp [tailPath, fragLoop]
+  | f :: fs, hok, frs, acc, sb => by
+      obtain ⟨hne, hpi, hattr⟩ := hok f List.mem_cons_self
+      obtain ⟨g, G, hgG⟩ : ∃ g G, f.tests = g :: G := by
+        cases hnt : f.tests with
+        | nil => exact absurd hnt hne
+        | cons g G => exact ⟨g, G, rfl⟩
+      have ih := fragLoop_tail fs (fun f' hf' => hok f' (List.mem_cons_of_mem _ hf'))
+      have hf : f = ⟨g :: G, calculatePi (g :: G), none, f.selfBeginning⟩ := by
+        cases f; simp_all
+      simp only [tailPath, fragSteps, hgG, fragPath, List.cons_append]
+      by_cases hsb : f.selfBeginning = true
+      · simp only [hsb, if_true, fragLoop]
+        rw [fragLoop_chain_app, ih]
+        rw [hf]; simp [hsb]
+      · have hsb' : f.selfBeginning = false := by simpa using hsb
+        simp only [hsb', Bool.false_eq_true, if_false, fragLoop]
+        rw [fragLoop_chain_app, ih]
+        rw [hf]; simp [hsb']
+
+theorem tailOk_of_fragsOk (f0 : Frag) (fs : List Frag) (hok : FragsOk (f0 :: fs)) : TailOk fs := by
+  intro f hf
+  obtain ⟨i, hi⟩ := List.getElem?_of_mem hf
+  exact ⟨hok.tail i f (by simpa using hi), hok.pi f (List.mem_cons_of_mem _ hf), hok.attr f (List.mem_cons_of_mem _ hf)⟩
+
+/-- `__init__` gives back the fragment list the path was built from -/
+theorem fragments_normPath (frags : List Frag) (hok : FragsOk frags) : fragments (normPath frags) = some frags := by
+  obtain ⟨f0, h0, hhead⟩ := hok.head
+  cases frags with
+  | nil => simp at h0
+  | cons a fs =>
+    simp at h0; subst h0
+    have htail := tailOk_of_fragsOk a fs hok
+    have hpi := hok.pi a List.mem_cons_self
+    have hattr := hok.attr a List.mem_cons_self
+    simp only [fragments, normPath, headPath]
+    by_cases hsb : a.selfBeginning = true
+    · simp only [hsb, if_true]
+      cases hts : a.tests with
+      | nil => have := (hhead hts).1; rw [hsb] at this; cases this
+      | cons g G =>
+        simp only [fragPath, List.cons_append, fragLoop, List.getLast?_nil]
+        rw [fragLoop_chain_app, fragLoop_tail fs htail]
+        cases a; simp_all
+    · have hsb' : a.selfBeginning = false := by simpa using hsb
+      simp only [hsb', Bool.false_eq_true, if_false]
+      rw [fragLoop_chain_app, fragLoop_tail fs htail]
+      cases a; simp_all
+
+/-- the steps of the path of a fragment list: supported tests, no predicates, no attribute axis -/
+theorem mem_fragPath (ax : Axis) (ts : List NodeTest) (s : Step) (hs : s ∈ fragPath ax ts) :
+    (s.axis = ax ∨ s.axis = .child) ∧ s.test ∈ ts ∧ s.preds = [] := by
+  cases ts with
+  | nil => simp [fragPath] at hs
+  | cons t0 ts =>
+    simp only [fragPath, childChain, List.mem_cons, List.mem_map] at hs
+    rcases hs with rfl | ⟨t, ht, rfl⟩
+    · exact ⟨Or.inl rfl, by simp, rfl⟩
+    · exact ⟨Or.inr rfl, by simp [ht], rfl⟩
+
+theorem mem_tailPath : ∀ (fs : List Frag) (s : Step), s ∈ tailPath fs →
+    s.axis ≠ .attribute ∧ (∃ f ∈ fs, s.test ∈ f.tests) ∧ s.preds = []
+  | [], s, hs => by simp [tailPath] at hs
+  | f :: fs, s, hs => by
+      simp only [tailPath, List.mem_append] at hs
+      rcases hs with hs | hs
+      · obtain ⟨h1, h2, h3⟩ := mem_fragPath _ _ s hs
+        refine ⟨?_, ⟨f, List.mem_cons_self, h2⟩, h3⟩
+        rcases h1 with h | h <;> rw [h]
+        · split <;> simp
+        · simp
+      · obtain ⟨h1, ⟨f', hf', h2⟩, h3⟩ := mem_tailPath fs s hs
+        exact ⟨h1, ⟨f', List.mem_cons_of_mem _ hf', h2⟩, h3⟩
+
+theorem mem_normPath (frags : List Frag) (s : Step) (hs : s ∈ normPath frags) :
+    s.axis ≠ .attribute ∧ (∃ f ∈ frags, s.test ∈ f.tests) ∧ s.preds = [] := by
+  cases frags with
+  | nil => simp [normPath] at hs
+  | cons f0 fs =>
+    simp only [normPath, List.mem_append] at hs
+    rcases hs with hs | hs
+    · unfold headPath at hs
+      split at hs
+      · obtain ⟨h1, h2, h3⟩ := mem_fragPath _ _ s hs
+        refine ⟨?_, ⟨f0, List.mem_cons_self, h2⟩, h3⟩
+        rcases h1 with h | h <;> rw [h] <;> simp
+      · simp only [childChain, List.mem_map] at hs
+        obtain ⟨t, ht, rfl⟩ := hs
+        exact ⟨by simp, ⟨f0, List.mem_cons_self, ht⟩, rfl⟩
+    · obtain ⟨h1, ⟨f', hf', h2⟩, h3⟩ := mem_tailPath fs s hs
+      exact ⟨h1, ⟨f', List.mem_cons_of_mem _ hf', h2⟩, h3⟩
+
+theorem normPath_ne (frags : List Frag) (hok : FragsOk frags) : 0 < (normPath frags).length := by
+  obtain ⟨f0, h0, hhead⟩ := hok.head
+  cases frags with
+  | nil => simp at h0
+  | cons a fs =>
+    simp at h0; subst h0
+    by_cases hemp : a.tests = []
+    · obtain ⟨_, h2⟩ := hhead hemp
+      cases fs with
+      | nil => simp at h2
+      | cons f1 fs' =>
+        have hne1 := hok.tail 0 f1 rfl
+        cases hts : f1.tests with
+        | nil => exact absurd hts hne1
+        | cons g G => simp [normPath, tailPath, fragSteps, hts, fragPath]; omega
+    · cases hts : a.tests with
+      | nil => exact absurd hts hemp
+      | cons g G =>
+        simp only [normPath, headPath, hts, List.length_append]
+        split <;> simp [fragPath, childChain] <;> omega
+
+theorem stepsOk_normPath (ns : NsMap) (vs : Vars) (frags : List Frag) (hok : FragsOk frags) :
+    StepsOk ns vs (normPath frags) := by
+  refine ⟨normPath_ne frags hok, fun s hs => (mem_normPath frags s hs).1, ?_, ?_, ?_⟩
+  · intro s hs
+    obtain ⟨_, ⟨f, hf, ht⟩, _⟩ := mem_normPath frags s hs
+    rcases simpleT_cases s.test (hok.simple f hf _ ht) with ⟨n, h⟩ | h | h <;> rw [h] <;> simp [NodeTest.elemWf]
+  · intro s hs q hq
+    rw [(mem_normPath frags s hs).2.2] at hq; simp at hq
+  · intro s hs q hq
+    rw [(mem_normPath frags s hs).2.2] at hq; simp at hq
+
+theorem runTest_simpleL (frags : Option (List Frag)) (ic : Bool) (ns : NsMap) (vs : Vars) (t : PState)
+    (es : List Event) :
+    runTest [.simple frags ic] ns vs [.p t] es = (runOne (pStep frags ic ns) t es).1 := by
+  induction es generalizing t with
+  | nil => rfl
+  | cons e es ih =>
+    simp only [runTest, multiStep, List.zip_cons_cons, List.zip_nil_right, List.map_cons, List.map_nil,
+      Matcher.step, List.foldl_cons, List.foldl_nil, Val.isNone, runOne]
+    rw [ih]
+    simp
+
+/-- SimplePathStrategy on the path of any fragment list, as an operand: it designates the
+    XPath node set of that path -/
+theorem operand_simple_frags (ns : NsMap) (vs : Vars) (frags : List Frag) (hok : FragsOk frags)
+    (tag : QName) (attrs : AttrList) (kids : List Node) (hcl : cleanList kids = true) :
+    Operand ns vs (toXVars vs) (.elem tag attrs kids) (normPath frags)
+      (.simple (fragments (normPath frags)) false) (.p []) := by
+  obtain ⟨h1, h2⟩ := simple_marks ns (toXVars vs) frags hok tag attrs kids hcl
+  refine ⟨?_, fun x => ?_, ?_⟩
+  · rw [runTest_simpleL, fragments_normPath frags hok]; exact h1
+  · rw [runTest_simpleL, fragments_normPath frags hok]
+    exact Bool.eq_iff_iff.mpr (h2 x)
+  · have hne := normPath_ne frags hok
+    cases hl : (normPath frags).getLast? with
+    | none => simp [List.getLast?_eq_none_iff] at hl; rw [hl] at hne; simp at hne
+    | some last => exact ⟨last, rfl, (mem_normPath frags last (List.mem_of_getLast? hl)).1⟩
+
 end Genshi.Path.Frags
